@@ -33,8 +33,8 @@ ASSUMPTIONS = [
     "luminous intensity is fixed to candela in every registry and never appears in a quantity",
 ]
 
-QUICK = ["single_q", "pair_q", "hist_q", "reg_q", "derived_q", "help_q", "bexp"]
-THOROUGH = ["single_t", "pair_t", "triple_t", "hist_q", "hist_t", "reg_q", "reg_t", "derived_t", "own_t", "help_q", "help_t", "bexp"]
+QUICK = ["single_q", "pair_q", "hist_q", "reg_q", "derived_q", "help_q", "bexp", "plain"]
+THOROUGH = ["single_t", "pair_t", "triple_t", "hist_q", "hist_t", "reg_q", "reg_t", "derived_t", "own_t", "help_q", "help_t", "bexp", "plain"]
 INV = {"quick": "inv_q", "thorough": "inv_t"}
 ACTIONS = {"inv": ["GenAddFactor", "GenSeal", "GenConvert", "GenBack", "GenVia", "GenScale", "GenContainer",
                    "GenIncompatible", "GenDimensionality", "GenDefaultUnit", "GenUnitlessIn", "GenDerived",
@@ -100,7 +100,7 @@ def _step(a, q, qs, q0ux):
         return {"x": float(x), "y": float(y)}, y * U2
     if op == "scale":
         nq = float(Fraction(*a["k"])) * q
-        return {"x": float(nq.magnitude)}, nq
+        return {"x": float(getattr(nq, "magnitude", nq))}, nq
     if op == "container":
         T = uc.unit_expr(a["t"])
         kind = a["kind"]
@@ -123,6 +123,34 @@ def _step(a, q, qs, q0ux):
             mult = np.array([float(Fraction(*m)) for m in a["mults"]])
             return {"xs": uc.floats(cu.to_unitless(mult * q, T))}, None
         raise ValueError(kind)
+    if op == "plain":
+        # q is a plain float here (unit-less value); the target is written as the case says
+        k = float(Fraction(*a["k"]))
+        unit = uc.unit_expr(a["t"])
+        if unit is None:
+            unit = cu.default_units.dimensionless
+        T = k if a["tw"] == "number" else (k * unit if a["tw"] == "scaled" else unit)
+        mult = [float(Fraction(*m)) for m in a["mults"]]
+        v = float(q)
+        form = a["form"]
+        if form == "scalar":
+            return {"xs": [float(cu.to_unitless(v, T))]}, None
+        if form == "qscalar":
+            return {"xs": [float(cu.to_unitless(v * cu.default_units.dimensionless, T))]}, None
+        if form == "list":
+            return {"xs": uc.floats(cu.to_unitless([m * v for m in mult], T))}, None
+        if form == "tuple":
+            return {"xs": uc.floats(cu.to_unitless(tuple(m * v for m in mult), T))}, None
+        if form == "ndarray":
+            return {"xs": uc.floats(cu.to_unitless(np.array(mult) * v, T))}, None
+        if form == "objarray":
+            return {"xs": uc.floats(cu.to_unitless(np.array([m * v for m in mult], dtype=object), T))}, None
+        if form == "qarray":
+            return {"xs": uc.floats(cu.to_unitless(np.array(mult) * v * cu.default_units.dimensionless, T))}, None
+        if form == "dict":
+            r = cu.to_unitless({"k%d" % i: m * v for i, m in enumerate(mult)}, T)
+            return {"xs": [float(r["k%d" % i]) for i in range(len(mult))]}, None
+        raise ValueError(form)
     if op == "incompatible":
         T = uc.unit_expr(a["t"])
         o = uc.observe(cu.to_unitless, q, T)
@@ -158,7 +186,9 @@ def run_history(cin, gens):
     """execute the history of a case on chempy.units; one observation per operation.
     An exception where the spec expects a value is itself the observation."""
     gv = uc.gen_values(gens)
-    q = float(uc.num(cin["mag"], gv)) * uc.unit_expr(cin["ux"])
+    q = float(uc.num(cin["mag"], gv))
+    if cin["ux"]:
+        q = q * uc.unit_expr(cin["ux"])
     qs = [q]
     out = []
     for a in cin["ops"]:
@@ -220,6 +250,13 @@ def judge(a, obs, e, gv, tol10, htol10):
         return None
     if op in ("scale", "unitless"):
         return None if uc.close(obs["x"], uc.num(e["x"], gv), tol10) else "magnitude"
+    if op == "plain":
+        if len(obs["xs"]) != len(e["xs"]):
+            return "length"
+        for x, ex in zip(obs["xs"], e["xs"]):
+            if not uc.close(x, uc.num(ex, gv), tol10):
+                return "element"
+        return None
     if op == "container":
         for key in ("xs", "alt"):
             if key in obs:
@@ -305,15 +342,23 @@ def replay_case(case):
 
 def _fn_of(a):
     return {"convert": "to_unitless", "back": "to_unitless", "via": "to_unitless", "scale": "to_unitless",
-            "container": "to_unitless", "incompatible": "to_unitless", "dimensionality": "get_physical_dimensionality",
+            "container": "to_unitless", "incompatible": "to_unitless", "plain": "to_unitless", "dimensionality": "get_physical_dimensionality",
             "defunit": "default_unit_in_registry", "unitless": "unitless_in_registry", "derived": "get_derived_unit",
             "roundtrip": "unit_registry_from_human_readable", "bexp": "Backend.exp"}.get(a["op"], a.get("name", a["op"]))
+
+
+def _plain_key(a):
+    """what is asked: the container form, how the target is written and whether a number factor is written out"""
+    return {"form": a["form"], "tw": a["tw"], "factor": "1" if list(a["k"]) == [1, 1] else "k",
+            "target": "*".join("%s^%d" % (f["n"], f["p"]) for f in a["t"]) or "dimensionless"}
 
 
 def _key(case, i, a, clause):
     key = {"fn": _fn_of(a), "op": a["op"], "clause": clause, "cls": case.get("cls", "")}
     if a["op"] == "container":
         key["kind"] = a["kind"]
+    if a["op"] == "plain":
+        key.update(_plain_key(a))
     if a["op"] == "derived":
         key["key"] = a["key"]
     if a["op"] == "roundtrip":
@@ -340,6 +385,8 @@ def trace_of(cin, obs):
             e = {"ev": "error", "op": op, "exc": o["error"]}
             if "reg" in a:
                 e["reg"] = a["reg"]
+            if op == "plain":
+                e.update(form=a["form"], tw=a["tw"], k=a["k"], t=a["t"])
             ev.append(e)
             break
         if op in ("convert", "back"):
@@ -352,6 +399,8 @@ def trace_of(cin, obs):
             e.update(k=a["k"], x=_enc(o["x"]))
         elif op == "container":
             e.update(kind=a["kind"], t=a["t"], xs=[_enc(v) for v in o["xs"]])
+        elif op == "plain":
+            e.update(form=a["form"], tw=a["tw"], k=a["k"], t=a["t"], xs=[_enc(v) for v in o["xs"]])
         elif op == "incompatible":
             e.update(t=a["t"], raised=bool(o["raised"]))
         elif op == "dimensionality":
@@ -415,7 +464,28 @@ class Gen(object):
         d = self.r.choice([1, 1, 2, 3, 7, 8, 10, 125, 1000])
         return [self.r.choice([-1, 1]) * n, d]
 
+    PLAIN_UNITS = [[], [{"n": "percent", "p": 1}], [{"n": "m", "p": 1}, {"n": "mm", "p": -1}], [{"n": "mm", "p": 1}, {"n": "m", "p": -1}],
+                   [{"n": "min", "p": 1}, {"n": "s", "p": -1}], [{"n": "mol", "p": 1}, {"n": "umol", "p": -1}],
+                   [{"n": "g", "p": 2}, {"n": "kg", "p": -1}, {"n": "mg", "p": -1}], [{"n": "h", "p": -1}, {"n": "ms", "p": 1}],
+                   [{"n": "percent", "p": -1}], [{"n": "km", "p": 1}, {"n": "dm", "p": -1}]]
+
+    def plain_history(self):
+        """a plain number, scaled now and then, stripped with respect to dimensionless targets of size != 1"""
+        ops = []
+        for _ in range(self.r.randint(1, self.max_ops)):
+            if self.r.random() < 0.25:
+                ops.append({"op": "scale", "k": self.rational()})
+                continue
+            tw = self.r.choice(["number", "scaled", "unit", "unit"])
+            k = [1, 1] if tw == "unit" else self.r.choice([[1, 1000000000], [1000, 1], [1, 100], [2, 1], [5, 3], [1, 1], [7, 1000]])
+            t = [] if tw == "number" else self.r.choice(self.PLAIN_UNITS)
+            ops.append({"op": "plain", "form": self.r.choice(["scalar", "qscalar", "list", "tuple", "ndarray", "ndarray", "objarray", "qarray", "dict"]),
+                        "tw": tw, "k": k, "t": t, "mults": [[1, 1], [2, 1], [-3, 2]]})
+        return {"magq": self.rational(), "ux": [], "ops": ops}
+
     def history(self):
+        if self.r.random() < 0.12:
+            return self.plain_history()
         ux = self.uexpr(self.max_factors)
         mag = self.rational()
         ops = []
@@ -457,7 +527,7 @@ def _run_trace(h):
 
 
 def _run_history_q(mag, h):
-    q = mag * uc.unit_expr(h["ux"])
+    q = mag * uc.unit_expr(h["ux"]) if h["ux"] else mag
     qs = [q]
     out = []
     for a in h["ops"]:
@@ -475,7 +545,7 @@ def _run_history_q(mag, h):
 
 # --------------------------------------------------------------------------- run
 REQUIRED_OPS = {"convert", "back", "via", "scale", "container", "incompatible", "dimensionality", "defunit",
-                "unitless", "derived", "roundtrip", "bexp", "helper"}
+                "unitless", "derived", "roundtrip", "bexp", "helper", "plain"}
 
 
 def run(ctx):
@@ -534,6 +604,8 @@ def run(ctx):
         a = tr[pos - 1] if 0 < pos <= len(tr) else {}
         opname = a.get("op", a.get("ev", "?"))
         key = {"fn": _fn_of({"op": opname}), "op": opname, "clause": clause}
+        if opname == "plain" and "form" in a:
+            key.update(_plain_key(a))
         if opname == "roundtrip":
             reg = a.get("reg", {})
             key["amount"] = reg.get("amount")
